@@ -47,16 +47,18 @@ CLAIMED = {
          "received not later, every ancestor with payload of a committed event is committed in an earlier block or earlier in the same block "
          "(C04_order_extends_causality), received sets of processed rounds are final. Two literal readings are refuted by witnesses that are facts about the "
          "algorithm (a frame without transactions produces no block; an ancestor of a received event can be unreceived while its round is still undecided). "
-         "Dynamic membership: oracle on every history",
-         "23 theorems, no axioms; premise: event ids (hash ordinals) determine the event; signature ranks / coin bits are harness-supplied data; "
-         "fast-sync reset not modelled",
+         "Under DYNAMIC membership and the distance bound: frames extend causality, committed ancestors, processed rounds complete (single node), and the committed orders of two nodes "
+         "agree: k-th blocks list the same (event, Lamport) pairs in the same order and the shorter committed order is a prefix (C04_block_events_agree_dynamic, C04_committed_order_prefix_dynamic). "
+         "The oracle runs on every history incl. dynamic-membership ones with retried membership requests",
+         "30 theorems, no axioms; premise: event ids (hash ordinals) determine the event; signature ranks / coin bits are harness-supplied data; "
+         "frames of reset nodes: oracle from the anchor on",
          "Coq invariant proof over operation lists + gossip-history correspondence (keys e/d/r) + implementation oracle (orderOracle, frameOracle)"),
  "C17": ("State gate of the node (processRPC gate, the four handlers' answer classes, read-only sync / fast-forward handlers with the eventDiff + limit + "
          "knownEvents answer, join / addTransaction pool arithmetic, Init's initial state, checkSuspend / Suspend) modelled in Coq; proved for every "
          "non-Babbling state and every sequence of requests (any eager-sync effect), transactions and heartbeats: state, DAG, self-events, delivered "
          "blocks, undetermined events and internal-transaction pool unchanged, only the transaction pool grows, every request refused except a "
          "Suspended sync, whose answer is the same function as in Babbling and a correct difference; checkSuspend suspends a Babbling node iff over "
-         "limit x validators or evicted. Tied to the code by real Nodes driven through the hooks in all 6 states, no-quorum runs and a consensus eviction",
+         "limit x validators or evicted. Tied to the code by real Nodes driven through the hooks in all 6 states, no-quorum runs and a consensus eviction, two thirds of them with an application whose state-change handler fails",
          "10 theorems, no axioms; the effect of core.sync on a Babbling node is data; handlers are called synchronously: the concurrent check-then-act "
          "window between the gate and a handler is not covered",
          "Coq invariant proof over input lists + per-request correspondence with real Nodes + implementation oracles"),
@@ -118,7 +120,7 @@ CLAIMED = {
          "KnownEvents are exactly the written ones; head/seq are the own written event of greatest index; on any continuation the recovered node keeps "
          "the admission and block-store invariants, delivers what the never-crashed node delivers and equals it in every component but collected block "
          "signatures / anchor / pending signatures. Regression witness proved for the ProcessSigPool of before d90db55 (re-delivered blocks renumbered). "
-         "Tied to the code by recoveries from snapshots of a real Badger directory at store-write granularity inside gossip histories, real kills with "
+         "Tied to the code by recoveries from snapshots of a real Badger directory at store-write granularity AND inside one store write (value-log prefixes at entry boundaries and torn entries) inside gossip histories, real kills (also inside a write) with "
          "continuation, restart twice, clean shutdown, real SIGKILLs, the directed early-signature regression scenario staged on every run, each "
          "compared with the durable pre-crash observations and with the extracted model on every observable",
          "11 theorems, no axioms; assumed: Badger per-transaction atomicity and commit-order durability, deterministic reset application, cache larger "
@@ -139,11 +141,12 @@ CLAIMED = {
          "six rounds above its last consensus round) on both nodes started from the same genesis set, PROVED under dynamic membership: the validator-set tables agree "
          "(C01_tables_agree_dynamic, no premise on the tables), rounds, fame, famous-witness sets and round-received agree (C01_consensus_values_agree_dynamic; abstract voting loop "
          "with per-round set sizes) and delivered blocks with the same position agree in index, round-received, timestamp, transactions, internal transactions and peers, the shorter chain "
-         "being a prefix of the longer (C01_agreement_dynamic_gap, C01_agreement_prefix_dynamic_gap); not proved for dynamic membership: equality of the frame record. The oracle evaluates agreement on real cores after every action of random, lagging-view, split-vote (coin rounds, lone decider) "
+         "being a prefix of the longer (C01_agreement_dynamic_gap, C01_agreement_prefix_dynamic_gap), and finally the FULL seven-field statement incl. the frame record "
+         "(C01_agreement_full_dynamic_gap, C01_agreement_full_prefix_dynamic_gap): C01_agreement holds verbatim under dynamic membership with the static premise replaced by the distance bound. The oracle evaluates agreement on real cores after every action of random, lagging-view, split-vote (coin rounds, lone decider) "
          "and dynamic-membership histories; every observable of every node is compared with the model after every action",
-         "44 theorems, no axioms; premises: event id determines the event, signature tie-break values pairwise distinct, fork-free universe; static membership for "
-         "the full seven-field block theorems; same genesis + distance bound on both runs for the dynamic theorems (six of the seven block fields); frame record under dynamic membership: oracle + correspondence",
-         "Coq invariant proofs over operation lists (about 20000 lines for the consensus core) + refutation / regression witnesses + gossip-history correspondence + prefix-consistency oracle + pinned fork replays"),
+         "46 theorems, no axioms; premises: event id determines the event, signature tie-break values pairwise distinct, fork-free universe; static membership for "
+         "the full seven-field block theorems; same genesis + distance bound (gap_runb, evaluated by the runner on every insertion) and no failed pass on both runs for the dynamic theorems; without the distance bound the statement is false of the code (open finding)",
+         "Coq invariant proofs over operation lists (about 45000 lines for the consensus core) + refutation / regression witnesses + gossip-history correspondence + prefix-consistency oracle + pinned fork replays"),
  "C03": ("PROVED in Coq (per-event mode, static membership, fork-free attempt sets): two topological insertion orders of one attempt set (valid and invalid "
          "attempts, possibly on two nodes) admit exactly the same events (C03_admission_order_independent) and give every event the same observables "
          "(C03_order_independent); a run over a superset admits a superset and the delivered transactions of a downward-closed prefix are a prefix "
@@ -151,8 +154,9 @@ CLAIMED = {
          "decisions are independent of witness iteration order. The statement without fork freedom is refuted (2-event witness). REFUTED with a 15-event witness "
          "replayed on the code: results depend on the batching of consensus passes (known finding). Store and cache independence are evaluated on generated "
          "DAGs (random topological orders incl. maximally delayed creators, cuts, Badger vs in-memory, batch sizes, small-cache Badger node in gossip), each run "
-         "also replayed on the model",
-         "14 theorems, no axioms; store type / cache size independence is exploration + correspondence only (the store refinement is C16); batching clause is a known finding",
+         "also replayed on the model. Under DYNAMIC membership and the distance bound: Lamport (no premise), round, strongly-see, round-received are functions of ancestry, "
+         "observables of shared events are order independent and the k-th blocks of two insertion orders agree (C03_order_independent_shared_dynamic, C03_blocks_order_consistent_dynamic)",
+         "20 theorems, no axioms; store type / cache size independence is exploration + correspondence only (the store refinement is C16); batching clause is a known finding",
          "Coq theorems + refutation witnesses + DAG re-feeding differential oracle + model replay (per-event and batched)"),
  "C05": ("Pool discipline of core.addSelfEvent proved in Coq for every sequence of submissions and succeeding / failing insertions (with appends during the insertion): "
          "accepted transactions = payloads of the node's own events ++ pending pool, in order; exactly one event per transaction; a failed insertion keeps everything "
@@ -181,7 +185,7 @@ CLAIMED = {
          "round is refuted by a 4-validator view); in a coin round a witness flips its coin only if its tally has no supermajority, supermajority tallies of "
          "one round agree, nobody decides in a coin round, after a unanimous round the coin is never used. NOT proved: that a coin round eventually yields "
          "unanimity (probabilistic) and the bound on fair cycles (needs a scheduler model). The bound is explored on real cores: arbitrary adversarial prefix (truncation, loss, silent minority < n/3), then "
-         "fair all-pairs cycles until quiescence; oracle: within 30 cycles nobody is busy and everything accepted is committed by all (measured: 1-7 cycles)",
+         "fair all-pairs cycles until quiescence; oracle: within 30 cycles nobody is busy and everything accepted is committed by all (measured: 1-7 cycles); flavours: random, split-vote backlog, minority silent for good with a small cache, a lagging validator that wakes up holding uncommitted loaded events, fast-forwards and makes a truncated first sync",
          "partial: runtime behaviour not exhibited by the model: timers, goroutine scheduling, random peer selection; the convergence bound is exploration only",
          "Coq lemmas on the logic + controlled-schedule exploration with a deterministic fair suffix"),
  "C13": ("The reset path is in the Coq model (Model/HgReset.v: Hashgraph.Reset, InmemStore.Reset, InsertFrameEvent, SortedFrameEvents, core.fastForward after "
